@@ -10,7 +10,7 @@ import (
 
 // ---- C12: node functions (name, local-name, namespace-uri, count, lang) ----------
 
-var c12Langs = []string{"en", "EN", "en-US", "en-us", "e", "eng", "zh", "zh-TW", "zh-Hant-TW", "x-priv", "de", "", "en-", "fr-CA", "EN-gb"}
+var c12Langs = []string{"en", "EN", "en-US", "en-us", "e", "eng", "zh", "zh-TW", "zh-Hant-TW", "x-priv", "de", "", "en-", "fr-CA", "EN-gb", "zh-Hant", "en-Latn-US-x-private", "en-Latn", "en-latn-us-x"}
 
 func c12NameExprs() []string {
 	var out []string
